@@ -54,3 +54,45 @@ func init() {
 	})
 	reg("(encoding/json.Number).String", func(fr *frame, a []value) value { return a[0] })
 }
+
+// noUpperCaseTerm reports whether t is syntactically free of upper-case ASCII letters: a constant
+// without them, an input variable whose alphabet (zz.StringEx) excludes A-Z, or a concatenation of such.
+func noUpperCaseTerm(m *Machine, t *Term) bool {
+	switch {
+	case t.IsConst():
+		for i := 0; i < len(t.S); i++ {
+			if t.S[i] >= 'A' && t.S[i] <= 'Z' || t.S[i] >= 0x80 {
+				return false
+			}
+		}
+		return true
+	case t.Op == "var":
+		ex, ok := m.noChars[t.S]
+		if !ok {
+			return false
+		}
+		for c := byte('A'); c <= 'Z'; c++ {
+			if !containsByte(ex, c) {
+				return false
+			}
+		}
+		return true
+	case t.Op == "str.++":
+		for _, a := range t.Args {
+			if !noUpperCaseTerm(m, a) {
+				return false
+			}
+		}
+		return len(t.Args) > 0
+	}
+	return false
+}
+
+func containsByte(s string, c byte) bool {
+	for i := 0; i < len(s); i++ {
+		if s[i] == c {
+			return true
+		}
+	}
+	return false
+}
